@@ -28,8 +28,11 @@ def program(over, has_migrate, has_reply, replies_feature, generic, order=None, 
     if has_reply:
         if replies_feature:
             ms.append(Method("reply", "rep", (Arg("result", "SubMsgResult"), Arg("payload", "Binary", ("#[sv::payload(raw)]",)))))
+            if has_reply == 2:   # with the feature a contract may declare any number of reply handlers
+                ms.append(Method("reply", "rep_b", (Arg("error", "String"), Arg("payload", "Binary", ("#[sv::payload(raw)]",))), msg_params=", reply_on=error"))
         else:
-            ms.append(Method("reply", "rep", (Arg("reply", "Reply"),)))
+            # a name that does not survive a round trip through the variant name
+            ms.append(Method("reply", "rep_v2", (Arg("reply", "Reply"),)))
     overrides = tuple("%s=crate::ovr::%s_ep(crate::ovr::%sMsgX)" % (k, k, k.capitalize()) for k in (order or KINDS6) if k in over)
     c = Contract(name="Ct", methods=tuple(ms), overrides=overrides,
                  features="replies" if replies_feature else None,
@@ -94,7 +97,7 @@ def check_entry_point(res, pid, src, kind, fn, generic, replies_feature, has_rep
             if "sv::dispatch_reply(deps,env,msg,contract)" not in body:
                 bad("reply entry point does not call sv::dispatch_reply(deps, env, msg, contract): %s" % fn.get("body"))
         else:
-            if ".rep((deps,env).into(),msg)" not in body:
+            if ".rep_v2((deps,env).into(),msg)" not in body:
                 bad("legacy reply entry point does not call the reply method with (deps, env) and msg: %s" % fn.get("body"))
     else:
         if "msg.dispatch(" not in body or ctxv not in body:
@@ -151,7 +154,7 @@ def check_mt_contract(res, pid, src, over, has_migrate, has_reply, replies_featu
             elif k == "reply" and not has_reply:
                 ok = "bail!(\"replynotimplementedforcontract\")" in body
             elif k == "reply":
-                ok = ("dispatch_reply(deps,env,msg,contract)" in body) if replies_feature else ("self.rep((deps,env).into(),msg)" in body)
+                ok = ("dispatch_reply(deps,env,msg,contract)" in body) if replies_feature else ("self.rep_v2((deps,env).into(),msg)" in body)
             else:
                 ok = (".dispatch(self," in body) and (("::%s>(&msg)" % ACCESSOR[k]) in body)
             if not ok:
@@ -163,9 +166,11 @@ def configs(tier):
     for n in range(0, 7):
         for over in itertools.combinations(KINDS6, n):
             for has_migrate in (False, True):
-                for has_reply in (False, True):
+                for has_reply in (False, True, 2):
                     for feat in (False, True):
                         for generic in (False, True):
+                            if has_reply == 2 and (not feat or generic):
+                                continue
                             yield (frozenset(over), has_migrate, has_reply, feat, generic, None)
     # contracts without own exec / query / sudo handlers
     for n in range(0, 7):
